@@ -46,8 +46,9 @@ theorem C03_coveralls_branch_vectors (plus : Bool) (r : Res) (hb : NodupKeys r.c
       ∀ l, Lcov.vecAt (Lcov.brdaFold [] recs) l = Lcov.vecAt r.cov.branches l :=
   ⟨_, unquads_quads r.cov.branches, fun l => Grcov.Props.C05.C05_branches_roundtrip_partial _ hb l⟩
 
-/-- coveralls+ carries every function with its name, start line and executed flag, in the map's
-iteration order, and nothing else; plain coveralls carries no `functions` key. -/
+/-- coveralls+ carries every function with its name, start line and executed flag, in the order
+the table is listed (the writer lists it by name, under the demangled names:
+`C03_demangle_coveralls_bytes`), and nothing else; plain coveralls carries no `functions` key. -/
 theorem C03_coveralls_functions (r : Res) :
     ((cvFileOk true r).functions.map uncvFns = some r.cov.functions) ∧
     (cvFileOk false r).functions = none :=
